@@ -322,6 +322,7 @@ def run(ctx):
     # malformed / ill-typed input: truncations, byte flips, extensions, negative flag words (model and code must agree on
     # Ok-vs-Err and on every Ok payload; nothing is demanded of the results themselves)
     bad = []
+    skipped_claims = 0
     for h in blobs:
         if h == "-" or rng.random() > ctx.n(0.15, 0.5):
             continue
@@ -337,7 +338,13 @@ def run(ctx):
             b[4:8] = rng.choice([b"\xff\xff\xff\xff", b"\xfe\xff\xff\x00", b"\x00\x00\x00\x80", b"\xff\xff\xff\x7f"])
         else:
             b += rng.randbytes(rng.randrange(1, 9))
+        # the model keeps offsets in unary nat: an aligned long-form prefix claiming far more than the input holds costs
+        # it minutes (the implementation handles it at once and is measured on such inputs in C19): not sent to the model
+        if any(b[i] == 0xFE and int.from_bytes(b[i + 1:i + 4], "little") > len(b) + 70000 for i in range(0, len(b) - 3, 4)):
+            skipped_claims += 1
+            continue
         bad.append(bytes(b).hex())
+    ctx.extra["malformed_inputs_with_multi_megabyte_claims_not_sent_to_the_model"] = skipped_claims
     ctx.correspond("deserialize-malformed", bad, py_des, lambda h: "tl_des " + h, lambda h: len(h) > 8)
     # oracle: framing + round trip on supported constructors
     n = 0
